@@ -102,3 +102,11 @@ func (m *multi) Set(s string) error { *m = append(*m, s); return nil }
 func join(cs []string) string { return strings.Join(cs, "") }
 
 func getenv(k string) string { return os.Getenv(k) }
+
+func init() {
+	// gen-pem writes a CA certificate and key (PEM) into VERIF_WORK and reports the paths.
+	commands["gen-pem"] = func(e *env) {
+		ca, _ := harnessCAs()
+		e.emit(map[string]any{"cert": ca.pemFile, "key": strings.TrimSuffix(ca.pemFile, ".pem") + ".key"})
+	}
+}
